@@ -1,7 +1,9 @@
 """C10 — malformed or unencodable lines are rejected and emit nothing (E1, must-reject sets)."""
 import itertools
+import os
+import re
 
-from .. import hexec, isa
+from .. import build, hexec, isa
 from ..decode import R64, R32, R16, R8, R8H
 from ..report import Report
 
@@ -85,6 +87,7 @@ def all_tuples():
 VALID_REGS = set(R64 + R32 + R16 + R8 + R8H + ["mm%d" % i for i in range(8)] + ["xmm%d" % i for i in range(16)] +
                  ["ymm%d" % i for i in range(16)])
 ABC = "abcdefghijklmnopqrstuvwxyz0123456789"
+KNOWN_NOW = set()      # filled by run(): names of the library's own tables (tree_names)
 
 
 def mutants(name):
@@ -92,7 +95,7 @@ def mutants(name):
     out = {}
 
     def add(m, kind, i, ch):
-        if m and m not in VALID_REGS and not m[0].isdigit() and m not in out:
+        if m and m not in VALID_REGS and m not in KNOWN_NOW and not m[0].isdigit() and m not in out:
             where = "first" if i == 0 else ("last" if i >= len(name) - (0 if kind == "ins" else 1) else "mid")
             out[m] = {"mutkind": kind, "mutpos": where, "ch": ch, "mlen": str(len(m))}
     for i in range(len(name)):
@@ -116,8 +119,32 @@ def gen_kinds(tier):
                 yield {"cat": "kinds", "text": text, "must": must, "mnemonic": mn, "tuple": t or "none", "width": str(w)}
 
 
+def tree_names():
+    """Every lower-case string literal of the library sources: the names the library itself knows (mnemonics, registers,
+    keywords).  'Unknown' in the statement means unknown to the library, so a name that a later version of the tables adds must
+    not be demanded to fail; this makes the must-reject sets follow the tree instead of a list frozen here."""
+    import glob
+    names = set()
+    for f in glob.glob(os.path.join(build.REPO, "src", "*.c")):
+        try:
+            names.update(re.findall(r'"([a-z][a-z0-9]*)"', open(f, errors="replace").read()))
+        except OSError:
+            pass
+    return names
+
+
+# registers x86-64 has but the library does not: a mutant that lands on one of them is only demanded to fail while the
+# library's own tables do not contain it (tree_names)
+X86_OTHER_REGS = set(["cs", "ds", "es", "fs", "gs", "ss", "ip", "eip", "rip", "flags", "eflags", "rflags"] +
+                     ["%s%d" % (p, i) for p, n in (("zmm", 32), ("xmm", 32), ("ymm", 32), ("k", 8), ("st", 8), ("cr", 16), ("dr", 16),
+                                                    ("bnd", 4), ("tmm", 8), ("tr", 8)) for i in range(n)])
+
+
 def gen_unknown_mnemonic():
+    known = tree_names()
     for mn in ("foo", "movx", "addd", "ad", "vpaddx", "jmpq", "mo", "xyzzy", "nop12", "nop0", "setxx", "cmovq", "rep", "lock"):
+        if mn in known:
+            continue
         for ops in ("", "rax", "rax, rbx", "[rax], 1"):
             yield {"cat": "mnemonic", "text": (mn + " " + ops).strip(), "must": True, "mnemonic": mn, "tuple": "-"}
 
@@ -284,6 +311,9 @@ def replay(r, verbose=False):
 
 def run(tier, seed):
     rep = Report(PROP, tier, seed)
+    KNOWN_NOW.clear()
+    KNOWN_NOW.update(n for n in tree_names() if n in X86_OTHER_REGS)
+    rep.bounds["names_of_other_x86_registers_the_tree_knows"] = sorted(KNOWN_NOW)
     cfgs3 = hexec.QUICK_CFGS
     one = [hexec.DEFAULT_CFG]
     rep.rule = ("every named mnemonic (%d) x every operand-kind tuple of length 0..4 over {scalar, XMM, YMM, memory, immediate} "
